@@ -189,3 +189,22 @@ Theorem C17_boxcox_limit_at_zero :
 Proof. exact boxcox_limit_at_zero. Qed.
 Theorem C17_boxcox_rejects_nan : forall (t : libm_table) (l : float), boxcox (FO t) nan l = None.
 Proof. exact boxcox_rejects_nan. Qed.
+
+(** ** Tie A: the model IS the source (expression translator).  [Generated/transforms.v] is re-translated from
+    src/functions/statistical.rs on every run (tools/tiea/transforms.py, tools/rsexpr.py), operation for operation;
+    each theorem says that the translated body of the Rust function ([None] = panic) and the hand-written model
+    function are the same function, for EVERY carrier [T] and every operations record [O]. *)
+From Compute Require Import Base.RsExpr Generated.transforms Proofs.TieA_transforms.
+Theorem C17_model_is_source_logistic :
+  forall (T : Type) (O : Ops T) (x : T), src_logistic O x = logistic O x.
+Proof. exact @tiea_logistic. Qed.
+Theorem C17_model_is_source_logit :
+  forall (T : Type) (O : Ops T) (p : T), src_logit O p = logit O p.
+Proof. exact @tiea_logit. Qed.
+Theorem C17_model_is_source_boxcox :
+  forall (T : Type) (O : Ops T) (x lambda : T), src_boxcox O x lambda = boxcox O x lambda.
+Proof. exact @tiea_boxcox. Qed.
+Theorem C17_model_is_source_boxcox_shifted :
+  forall (T : Type) (O : Ops T) (x lambda alpha : T),
+    src_boxcox_shifted O x lambda alpha = boxcox_shifted O x lambda alpha.
+Proof. exact @tiea_boxcox_shifted. Qed.
